@@ -3,7 +3,7 @@ from __future__ import annotations
 
 import ast
 
-from .. import astq, codec, smf, wire
+from .. import astq, codec, reference, smf, wire
 from ..absint import AbsRaise, ADict, AList, AObj, Opaque, SeqVar
 from ..fold import ClassRef, UNKNOWN
 from ..model import AnalysisError, unparse
@@ -236,6 +236,29 @@ def r15_copy(ctx):
         ok = len(outs) == 1 and outs[0].kind == 'return' and isinstance(outs[0].value, AObj) and outs[0].value.cls.name == FROZEN_OF[clsname]
         ctx.require(ok, 'R15.1', f'copy(frozen {label})', w, f'{outs}', construct=f'{cp.qname}::{clsname}::frozen-class')
     ctx.floor('R15.1', n, 5)
+    # copy() with overrides equals a freshly constructed message with those values - also in how a sequence-valued attribute is
+    # kept: whatever the constructor does with data given as a list, a tuple or bytes, copy(data=...) does the same
+    from ..fold import ClassRef as _CR
+    mcls = ctx.p.cls(META, 'MetaMessage')
+    ucls = ctx.p.cls(META, 'UnknownMetaMessage')
+    scls = ctx.p.cls(MSG, 'Message')
+    cases = [('MetaMessage sequencer_specific', mcls, ['sequencer_specific'], {}), ('UnknownMetaMessage', ucls, [0x60], {}), ('Message sysex', scls, ['sysex'], {})]
+    for label, cls_, cargs, ckw in cases:
+        o, cp = ctx.p.lookup_method(cls_, 'copy')
+        for kind in ('list', 'tuple', 'bytes'):
+            def thunk_c(kind=kind):
+                base = ai.apply(_CR(cls_), list(cargs), dict(ckw, time=3), None)
+                copied = ai.call_function(cp, [base], {'data': AList([1, 2], kind)})
+                fresh = ai.apply(_CR(cls_), list(cargs), dict(ckw, time=3, data=AList([1, 2], kind)), None)
+                return copied, fresh
+            outs = ai.explore(thunk_c)
+            ok = len(outs) == 1 and outs[0].kind == 'return' and all(isinstance(x, AObj) for x in outs[0].value)
+            if ok:
+                copied, fresh = outs[0].value
+                ok = attrs_equal(copied.attrs, fresh.attrs) and _seq_kind(copied.attrs.get('data')) == _seq_kind(fresh.attrs.get('data'))
+            ctx.require(ok, 'R15.1', f'copy({label}, data=<{kind}>) against the constructor', ctx.where(cp),
+                        f'copy(data=<{kind} 1, 2>) and the constructor called with the same values give {str(outs)[:300]}: the two must be equal, '
+                        'the data kept the same way', construct=f'{cp.qname}::{cls_.name}::agrees-with-constructor')
     for q in ai.inlined:
         ctx.functions.add(q)
 
@@ -345,6 +368,29 @@ def r15_canonical(ctx):
     """Every way of making a message leaves it in the one canonical form: sequence-valued attributes are tuples and always
     present (an unknown meta message made without a payload has data == (), not a missing attribute) - repr, ==, hash and the
     copies all read vars()."""
+    # a message made with every attribute left out equals the one made with the default values written out (what repr prints
+    # and eval reads back): the constructor does to an explicit value what it does to the default
+    from ..fold import ClassRef as _CR2
+    ai0 = smf.make_interp(ctx)
+    mcls0 = ctx.p.cls(META, 'MetaMessage')
+    n0 = 0
+    for tname in sorted(reference.META_SPECS):
+        n0 += 1
+
+        def thunk_d(tname=tname):
+            a = ai0.apply(_CR2(mcls0), [tname], {}, None)
+            kw = {k: v for k, v in a.attrs.items() if k != 'type'}
+            b = ai0.apply(_CR2(mcls0), [tname], dict(kw), None)
+            return a, b
+        outs = ai0.explore(thunk_d)
+        ok = len(outs) == 1 and outs[0].kind == 'return' and all(isinstance(x, AObj) for x in outs[0].value)
+        if ok:
+            a, b = outs[0].value
+            ok = attrs_equal(a.attrs, b.attrs) and all(_seq_kind(a.attrs[k]) == _seq_kind(b.attrs.get(k)) for k in a.attrs)
+        ctx.require(ok, 'R15.5', f'MetaMessage({tname!r}) against the same with its defaults written out', f'{mcls0.module.relpath}:{mcls0.node.lineno} MetaMessage',
+                    f'{str(outs)[:300]}: a default value given explicitly is stored differently from the default itself '
+                    '(eval(repr(m)) of the default message is then not equal to m)', construct=f'{mcls0.qname}::defaults-fixed-point')
+    ctx.floor('R15.5-default-fixed-point', n0, 17)
     # decoders/constructors normalise sequences to tuples
     um = ctx.p.cls(META, 'UnknownMetaMessage')
     init = um.methods.get('__init__')
